@@ -242,9 +242,12 @@ package filters
 //@ ensures prefix: len(result) <= len(s)
 
 //@ func values.IsEmpty
-//@ props C01
+//@ props C01 C09
 //@ panics nothing
 //@ assigns nothing
+//@ ensures nilIsNot: values.ToLiquid(value) == nil ==> !result
+//@ ensures containers: values.ToLiquid(value) != nil && (isarr(kind(values.ToLiquid(value))) || kind(values.ToLiquid(value)) == reflect.Map || kind(values.ToLiquid(value)) == reflect.String) ==> result == (pl_len(values.ToLiquid(value)) == 0)
+//@ ensures bools: kind(values.ToLiquid(value)) == reflect.Bool ==> result == !pl_bool(values.ToLiquid(value))
 
 // size: element count of an array or slice (any element type), character count of a string,
 // zero for everything else (maps included, as in Liquid)
